@@ -679,6 +679,41 @@ func init() {
 				}
 			}
 		}
+		// selectors that name the metric through a matcher on __name__ of every type (the
+		// merge optimizer keys its candidates by the value of that matcher), alone, doubled,
+		// and with one ordinary matcher; against named selectors and against each other
+		var nameSel []string
+		for _, op := range []string{"=", "!=", "=~", "!~"} {
+			for _, v := range []string{"a", "b", "a|b"} {
+				for _, extra := range []string{"", `,l="0"`, `,m="1"`, `,l!=""`} {
+					nameSel = append(nameSel, fmt.Sprintf(`{__name__%s"%s"%s}`, op, v, extra))
+				}
+			}
+		}
+		nameSel = append(nameSel, `{__name__="a",__name__!="b"}`, `{__name__=~"a|b",__name__!="b"}`, `{__name__=~"a|b",__name__!="a",l="0"}`,
+			`{__name__!="a",__name__!="b",l="0"}`, `{__name__=~"a|b",__name__=~".+",m="1"}`, `{__name__!~"b",__name__=~"a.*",l!=""}`)
+		named := []string{`a`, `a{l="0"}`, `a{m="1"}`, `a{l="0",m="1"}`, `a{l!=""}`, `b`, `b{l="0"}`, `b{l!="",m="1"}`}
+		namePos := []string{`count(%s) + count(%s)`, `sum by (l) (%s) / sum by (l) (%s)`, `count by (__name__) (%s) + on () group_left count(%s)`, `%s + scalar(count(%s))`}
+		for _, x := range nameSel {
+			for _, pos := range []string{`%s`, `count(%s)`, `sum by (l) (rate(%s[1m]))`} {
+				if !emit(fmt.Sprintf(pos, x), ws[0]) {
+					return
+				}
+			}
+			for _, pos := range namePos {
+				for _, y := range named {
+					if !emit(fmt.Sprintf(pos, x, y), ws[0]) || !emit(fmt.Sprintf(pos, y, x), ws[0]) {
+						return
+					}
+				}
+				for _, y := range nameSel {
+					if !emit(fmt.Sprintf(pos, x, y), ws[0]) {
+						return
+					}
+				}
+			}
+		}
+		c.Rep.Bounds["name_matcher_selectors"] = len(nameSel)
 		// larger expressions with offsets / @ on the selectors
 		for _, q := range []string{
 			`a{l="0"} offset 30s + a`, `a{l="0"} + a offset 30s`, `a{l="0"} @ 45.000 + a`, `rate(a{l="0"}[1m] offset 30s) / rate(a[1m])`,
